@@ -111,6 +111,13 @@ def worker(case):
                 del x.name
             for c in list(d.cables)[:1]:
                 del c.name
+    if len(case) > 3 and case[3] == "unnamed-all":
+        # every instance and cable nameless: siblings share the (absent) name
+        for d in n.libraries[0].definitions:
+            for x in list(d.children):
+                del x.name
+            for c in list(d.cables):
+                del c.name
     key = core.digest((_hier.key_of(case, n), case[2:]))
     occ = Occ(n)
     tag = case[0][0]
@@ -190,6 +197,24 @@ def worker(case):
                     exp = [c for c, seq in tab.items() if c[:depth] == pc and sum(1 for x in seq if isinstance(x, s.Instance)) >= depth
                            and (rec or sum(1 for x in seq if isinstance(x, s.Instance)) == depth)]
                 ask(fname, href, "href", exp, recursive=rec)
+    # ---- several hierarchical references as roots at once (names are relative to each root: they may repeat)
+    by_depth = {}
+    for pc, path in occ.inst.items():
+        by_depth.setdefault(len(path), []).append((pc, path))
+    for depth, group in by_depth.items():
+        if depth < 2 or len(group) < 2:
+            continue
+        hrefs = [HRef.from_sequence(list(path)) for _, path in group]
+        for fname, tab in table.items():
+            for rec in (False, True):
+                exp = []
+                for pc, _ in group:
+                    if fname == "hinstances":
+                        exp += [c for c in tab if len(c) > depth and c[:depth] == pc and (rec or len(c) == depth + 1)]
+                    else:
+                        exp += [c for c, seq in tab.items() if c[:depth] == pc and sum(1 for x in seq if isinstance(x, s.Instance)) >= depth
+                                and (rec or sum(1 for x in seq if isinstance(x, s.Instance)) == depth)]
+                ask(fname, hrefs, "hrefs", exp, recursive=rec)
     # ---- element roots
     seen = set()
     for c, seq in occ.all().items():
@@ -318,14 +343,15 @@ def cases(tier):
             # skeletons (every wiring in the thorough tier)
             out.append((desc, "asc", "query"))
     for sk in design.SKELETONS:
-        if design.SKELETONS[sk][2] == "thorough" and tier != "thorough":
-            continue
+        deep = design.SKELETONS[sk][2] == "thorough" and tier != "thorough"
         nd = len(design.SKELETONS[sk][0])
-        for first in ((0,) * nd, (1,) + (0,) * (nd - 1)):
+        # (the deep skeletons enter the quick tier with one wiring and one order)
+        for first in ((0,) * nd, (1,) + (0,) * (nd - 1)) if not deep else ((1,) + (0,) * (nd - 1),):
             out.append(((sk, first, "plain"), "asc", "query", "unnamed"))
+            out.append(((sk, first, "plain"), "asc", "query", "unnamed-all"))
             out.append(((sk, first, "plain"), "asc", "query", "array1"))
             for ei in range(MAX_EDITS):
-                for order in core.ORDER_VARIANTS:
+                for order in (core.ORDER_VARIANTS if not deep else ("asc",)):
                     out.append(((sk, first, "plain"), order, "edit", ei))
     return out
 
